@@ -7,8 +7,8 @@ import (
 
 type G struct{ r *rand.Rand }
 
-func (g *G) n(k int) int       { return g.r.Intn(k) }
-func (g *G) coin(p float64) bool { return g.r.Float64() < p }
+func (g *G) n(k int) int             { return g.r.Intn(k) }
+func (g *G) coin(p float64) bool     { return g.r.Float64() < p }
 func (g *G) pick(xs []string) string { return xs[g.r.Intn(len(xs))] }
 
 func ip(i int) *int       { return &i }
